@@ -67,7 +67,7 @@ def meta(tier):
                 'containing a symbol name) x definition source of each defined symbol in {ISA, -D, #define} x use-line token pairs '
                 '(written once before and once after the #define block, as `.byte t1, t2`, through `T = t1` and as the operand of `ldi b, t2`); plus every '
                 'double definition across and within sources; replacement texts with backslash escapes (5 strings x 3 sources x chains of 0..2 intermediate '
-                'symbols) used in .cstr / .byte; 2..33 occurrences of one symbol on a line / in a replacement text; symbols without a value (3 sources x chains) in 7 lines that stay well-formed when the name disappears; symbol names that also read as numbers (b1, DEH, b101, ACH, each) x 3 sources x chains of 0..2 x alone / next to another symbol, and self-definitions of such names; chains in which the name of a symbol contains the name of the symbol it expands to (BASE_HI -> BASE); integer-valued ISA symbols; non-trivial = table with a chain/diamond/cycle or a use line that '
+                'symbols) used in .cstr / .byte; 2..33 occurrences of one symbol on a line / in a replacement text; symbols without a value (3 sources x chains) in 7 lines that stay well-formed when the name disappears; symbol names that also read as numbers (b1, DEH, b101, ACH, each) x 3 sources x chains of 0..2 x alone / next to another symbol, and self-definitions of such names; chains in which the name of a symbol contains the name of the symbol it expands to (BASE_HI -> BASE); integer-valued ISA symbols; symbols whose name is the tail of a number literal on the same line ($1B and B, 10H and H); non-trivial = table with a chain/diamond/cycle or a use line that '
                 'mixes a symbol with an identifier containing its name; states = distinct (table, sources) pairs',
         'bounds': {'symbols': SYMS, 'values': {k: [None if v is None else ' '.join(v) for v in vs] for k, vs in VALUES.items()},
                    'containing_identifiers': CONSTS, 'use_tokens': [' '.join(t) for t in USE_TOKENS],
@@ -343,6 +343,28 @@ def number_like_names(acc, idx, n, ctr0):
         if msg:
             acc.violation([case], spec, f'{top} expands through {outer} to {inner}, whose name it contains ({src}): {msg}', [out])
         acc.judge(clause='substituted', nontrivial_key=('contains', outer, inner, src, depth))
+    # a symbol whose name is the tail of a number literal on the same line ($1B / 1BH and the symbol B): the literal is left alone
+    for (name, literal, lit_val), src, order in itertools.product((('B', '$1B', 0x1B), ('B', '1BH', 0x1B), ('D', '$2D', 0x2D), ('FF', '$0FF', 0xFF),
+                                                                   ('ADD', '$0ADD & 255', 0xDD), ('H', '10H', 0x10), ('x7', '0x7', 7)),
+                                                                  SOURCES, (0, 1)):
+        ctr += 1
+        if ctr % n != idx:
+            continue
+        table = {name: '11'}
+        isa_syms = [{'name': k, 'value': v} for k, v in table.items()] if src == 'isa' else []
+        cli = [f'{k}={v}' for k, v in table.items()] if src == 'cli' else []
+        lines = [f'#define {k} {v}' for k, v in table.items()] if src == 'define' else []
+        use = f'    .byte {literal}, {name}' if order == 0 else f'    .byte {name} + 1, {literal}'
+        lines += [use, '    .byte $EE']
+        case = Case(probe_isa(16, 'little', symbols=isa_syms or None), '\n'.join(lines) + '\n', defines=cli)
+        out = acc.run(case)
+        acc.transition()
+        want = [lit_val, 11] if order == 0 else [12, lit_val]
+        spec = {'expect': 'OK', 'image_hex': bytes(want + [0xEE]).hex(), 'symbol': name, 'literal': literal, 'source': src}
+        msg = judge_expect(spec, [out])
+        if msg:
+            acc.violation([case], spec, f'symbol {name} next to the literal {literal} ({src}): {msg}', [out])
+        acc.judge(clause='substituted', nontrivial_key=('tail', name, literal, src, order))
     for name, src in itertools.product(('b1', 'FACEH', 'LOOP'), SOURCES):
         ctr += 1
         if ctr % n != idx:
